@@ -74,6 +74,9 @@ def validate(prop, repo=None, jobs=16):
             meta = json.load(open(mp))
         except Exception:
             continue
+        if meta.get('status') == 'missed':
+            # kept for the record (DESIGN 9.25): confirmed regression that no rule reports yet; not an expectation of the self-test
+            continue
         if meta.get('breaks_property') == prop:
             variants.append({'id': 'seed-' + meta['id'], 'kind': 'mutant', 'what': 'seeded change: ' + meta.get('needs_to_manifest', '')[:120],
                              'edits': 'patch:' + os.path.join(os.path.dirname(mp), 'patch.diff')})
